@@ -544,7 +544,7 @@ func (w *World) StateKey(symmetry bool) string {
 		if r == 0 {
 			continue
 		}
-		fmt.Fprintf(&sb, "J%d:%s c=%v x=%v s=%v t=%v sch=%v e=%v d=%v b=%v", r, j.Pipeline, j.Completed, j.Canceled, j.Start >= 0, j.HasTimer, j.HasSched, j.LastError != "", j.StartDelay, j.Bad)
+		fmt.Fprintf(&sb, "J%d:%s c=%v x=%v s=%v t=%v sch=%v e=%v d=%v b=%v", r, j.Pipeline, j.Completed, j.Canceled, j.Start != nilDur, j.HasTimer, j.HasSched, j.LastError != "", j.StartDelay, j.Bad)
 		if j.Waiting() {
 			// how long it has waited relative to its delay matters for the future
 			waited := now - j.Created
